@@ -53,6 +53,7 @@ class Impl:
         self.tokid = {}         # id(event) -> token id
         self.foreign = {}
         self.retrigs = 0
+        self.default_filter = set()
         st = self.st
         if kind == "filter":
             # count top-level calls of the timer callback (bound method captured at put time)
@@ -77,6 +78,12 @@ class Impl:
     def ids(self, evs):
         return ",".join(str(self.tokid.get(id(e), -1)) for e in evs)
 
+    def state_extra(self):
+        try:
+            return self.state()
+        except Exception:  # noqa
+            return ""
+
     def state(self):
         st = self.st
         its = list(st.items)
@@ -90,7 +97,15 @@ class Impl:
             # (C04), not part of the model's state
             head = st.reserve_get_queue[0]
             try:
-                if any(head.filter(x) for x in its[len(st.reserved_events):]):
+                # a request without a filter of its own waits for an item whose delay has elapsed on the kernel's clock --
+                # judged here by the instant the store's own maturity timer is due (put time + trigger delay), not by
+                # asking the store's filter
+                if id(head) in self.default_filter:
+                    ok = any(self.env.now >= x.put_time + st.trigger_delay for x in its[len(st.reserved_events):]
+                             if getattr(x, "put_time", None) is not None)
+                else:
+                    ok = any(head.filter(x) for x in its[len(st.reserved_events):])
+                if ok:
                     extra += "|stuck-get"
             except Exception:  # noqa
                 pass
@@ -122,6 +137,8 @@ class Impl:
                     e = st.reserve_get(op[2])
                 else:
                     e = st.reserve_get(op[2], mkfilter(op[3], op[4]))
+                    if op[3] == 0:
+                        self.default_filter.add(id(e))
                 self.tokid[id(e)] = len(self.toks)
                 self.toks.append(e)
                 before.append(False)
@@ -341,3 +358,78 @@ def gen_case(rng, kind, n_ops, malformed=False):
         else:
             im.api(op)
     return dict(model="storep", kind=kind, cap=cap, tdelay=tdelay, ops=[list(o) for o in ops])
+
+
+def replay_real(case):
+    """re-run a recorded decimal-times history; returns the violation message or None"""
+    im = Impl("filter", case["cap"], case["tdelay"])
+    env, st = im.env, im.st
+    for op in case["ops"]:
+        op = tuple(op)
+        try:
+            if op[0] == "STEP":
+                if env.peek() == env.now:
+                    env.step()
+            elif op[0] == "ADV":
+                target = env.now + op[1]
+                while env.peek() <= target:
+                    env.step()
+                if target > env.now:
+                    env.run(until=target)
+            else:
+                print(op, im.api(op))
+        except Exception as ex:  # noqa
+            return "history raised %s" % type(ex).__name__
+        print(op, "now=%r" % env.now, im.state_extra())
+        if "stuck-get" in im.state_extra():
+            return "at %r the retrieval request next in line is still pending although an unreserved item put at %s has been in the " \
+                   "store for the trigger delay %s" % (env.now, [x.put_time for x in st.items[len(st.reserved_events):]], case["tdelay"])
+    return None
+
+
+def run_real(rng, n_ops):
+    """The filter store under decimal (not exactly representable) put times and trigger delays: the implementation alone.
+    After every step whose instant is over, the request next in line must not be waiting while an unreserved item's delay has
+    elapsed.  Returns (case, violation message or None)."""
+    cap = rng.choice([1, 2, 3, 4])
+    tdelay = rng.choice([0.1, 0.3, 0.7, 1, 2, 3])
+    im = Impl("filter", cap, tdelay)
+    st, env = im.st, im.env
+    ops, nextitem = [], 0
+    for _ in range(n_ops):
+        gp = [im.tokid[id(e)] for e in st.reservations_put if id(e) in im.tokid]
+        gg = [im.tokid[id(e)] for e in st.reservations_get if id(e) in im.tokid]
+        k = rng.choices(["RPUT", "RGET", "PUT", "GET", "ADV", "STEP"], [4, 5, 8 if gp else 0, 4 if gg else 0, 6, 3])[0]
+        if k == "RPUT":
+            op = ("RPUT", 0, 0)
+        elif k == "RGET":
+            op = ("RGET", 0, 0, 0, 0)
+        elif k == "PUT":
+            nextitem += 1
+            op = ("PUT", 0, rng.choice(gp), nextitem)
+        elif k == "GET":
+            op = ("GET", 0, rng.choice(gg))
+        elif k == "ADV":
+            op = ("ADV", rng.choice([0.1, 0.2, 0.3, 0.7, 1.1, 1.3, 2.9, 0.4]))
+        else:
+            op = ("STEP",)
+        ops.append(list(op))
+        try:
+            if k == "STEP":
+                if env.peek() == env.now:
+                    env.step()
+            elif k == "ADV":
+                target = env.now + op[1]
+                while env.peek() <= target:
+                    env.step()
+                if target > env.now:
+                    env.run(until=target)
+            else:
+                im.api(op)
+        except Exception as ex:  # noqa
+            return dict(model="storep-real", cap=cap, tdelay=tdelay, ops=ops), "history raised %s" % type(ex).__name__
+        if "stuck-get" in im.state_extra():
+            return dict(model="storep-real", cap=cap, tdelay=tdelay, ops=ops), \
+                "at %r the retrieval request next in line is still pending although an unreserved item put at %s has been in the " \
+                "store for the trigger delay %s" % (env.now, [x.put_time for x in st.items[len(st.reserved_events):]], tdelay)
+    return dict(model="storep-real", cap=cap, tdelay=tdelay, ops=ops), None
